@@ -78,6 +78,22 @@ func digitFree(p string) bool {
 	return p != "" && !strings.ContainsAny(p, "0123456789-")
 }
 
+// sepSafe: sep cannot occur inside the rendering of any number of ps (no digits; '-' only if all numbers are >= 0).
+func sepSafe(ps []StrPart, sep string) bool {
+	if sep == "" || strings.ContainsAny(sep, "0123456789") {
+		return false
+	}
+	if !strings.Contains(sep, "-") {
+		return true
+	}
+	for _, p := range ps {
+		if p.Num != nil && !(p.Num.Lo != nil && p.Num.Lo.Sign() >= 0) {
+			return false
+		}
+	}
+	return true
+}
+
 // couldOverlapNum reports whether an occurrence of pattern p might overlap the rendering of a numeric part
 // (only relevant for patterns that contain digits or '-'). Conservative: true means "cannot rule out".
 func couldOverlapNum(ps []StrPart, p string) bool {
